@@ -239,7 +239,7 @@ func (s *Sched) Run(choose Chooser) error {
 				}
 				s.mu.Unlock()
 				continue
-			case <-time.After(5 * time.Second):
+			case <-time.After(20 * time.Second):
 				return fmt.Errorf("sched: deadlock: %d tasks blocked", alive)
 			}
 		}
